@@ -362,6 +362,59 @@ def r7_invalid_arguments_are_einval(ctx):
     return out
 
 
+def r8_errno_is_the_failing_calls(ctx):
+    """'the errno of the failing system call': wrappers built on rustix get the errno as a return value; the one raw
+    libc call (openat2) reads the thread's errno afterwards -- that read (`last_os_error`) must come straight after the
+    call it belongs to, with no other call in between on any path (a readlink made while describing the failure
+    overwrites errno: the caller is told ENOENT for what was EBADF)."""
+    F = ctx.facts
+    out = []
+    n = 0
+    for b in F.fn_bodies():
+        if is_bitflags_generated(b):
+            continue
+        cfg = cfg_of(b)
+        for k, t in enumerate(b.calls("std::io::Error::last_os_error", "rustix::io::Errno::last_os_error", "std::io::Error::last_os_error")):
+            n += 1
+            key = "%s:last_os_error:%d" % (fn_key(b), k)
+            # backwards to the raw call(s) the read belongs to, collecting every call passed on the way
+            seen, work, raw, between, open_end = {t.bb}, [t.bb], [], [], False
+            while work:
+                x = work.pop()
+                preds = cfg.pred.get(x, [])
+                if not preds and x == cfg.entry:
+                    open_end = True
+                for e in preds:
+                    pb = b.blocks[e.src]
+                    if pb.term.kind == "call" and (pb.term.callee or "").startswith("libc::"):
+                        raw.append(pb.term)
+                        continue
+                    if pb.term.kind == "call":
+                        between.append(pb.term)
+                    if e.src not in seen:
+                        seen.add(e.src)
+                        work.append(e.src)
+            from .c10 import _may
+            ms, _d = _may(ctx)
+            g = cg(ctx)
+            via = {}     # call site -> crate functions it can end up in (call-backs through Into/From etc. included)
+            for tgt in g.edges.get(b.path, ()):
+                for _kind, site in g.edge_info.get((b.path, tgt), ()):
+                    if site is not None:
+                        via.setdefault(id(site), set()).add(tgt)
+            harmful = [c for c in between if os_entry_class(c) or c.resolved in ms or (c.callee or "") in ms or (c.callee or "").startswith("syscalls::")
+                       or any(nm in ms for nm in c.names) or any(x in ms for x in via.get(id(c), ()))]
+            if not raw or open_end:
+                out.append(violated("C16.R8", key, t.where(), "errno is read on a path without a preceding raw system call in the function"))
+            elif harmful:
+                out.append(violated("C16.R8", key, t.where(), "between the raw system call and the read of errno the function calls %s, which may perform system calls of its own: what they leave in errno is reported as the failure" % sorted({c.callee for c in harmful})))
+            else:
+                out.append(holds("C16.R8", key, t.where(), "errno read after %s with nothing in between that can touch it (%d call(s) passed: %s)" % (sorted({p.callee for p in raw}), len(between), sorted({c.callee for c in between})[:4])))
+    if n == 0:
+        out.append(holds("C16.R8", "last_os_error:none", "", "no wrapper reads the thread's errno; every errno is a returned value"))
+    return out
+
+
 RULES = [
     ("C16.R7", r7_invalid_arguments_are_einval, 5, True),
     ("C16.R1", r1_who_touches, 3, True),
@@ -370,4 +423,5 @@ RULES = [
     ("C16.R4", r4_remove_on_read, 1, True),
     ("C16.R5", r5_all_failures_via_table, 18, True),
     ("C16.R6", r6_errno_table, 2, True),
+    ("C16.R8", r8_errno_is_the_failing_calls, 1, True),
 ]
